@@ -65,6 +65,10 @@ _TEMPLATES["acm"] = "\n@_asynccontextmanager" + _TEMPLATES["agen"]
 
 
 class DepWorld(RecvWorld):
+    def __init__(self, sc: Dict[str, Any]) -> None:
+        self._failed_once: set = set()  # (message, node) pairs of 'fail_once' nodes that have failed already
+        super().__init__(sc)
+
     def task_name_for(self, i: int) -> str:
         if self.sc.get("deps") and self.msgs[i].get("task", "dep") == "dep":
             return "t_dep"
@@ -81,7 +85,9 @@ class DepWorld(RecvWorld):
     def dep_open(self, name: str, child_vals: Any, ctx: Any = None) -> Any:
         i = self.current_msg()
         node = self.sc["deps"]["nodes"][name]
-        if i in node.get("fail", ()):
+        once = i in node.get("fail_once", ()) and (i, name) not in self._failed_once
+        if i in node.get("fail", ()) or once:
+            self._failed_once.add((i, name))
             self.emit("OPENFAIL", i, name)
             raise RuntimeError(f"dependency {name} cannot be resolved")
         seen = None
@@ -100,7 +106,13 @@ class DepWorld(RecvWorld):
         if self.closed:
             return
         if self.sc["deps"]["nodes"][name].get("gate"):
-            await self.gate(("dep", self.current_msg(), name))
+            i = self.current_msg()
+            label: Any = ("dep", i, name)
+            k = 1
+            while label in self.gates:  # resolved again for the same message (un-cached, or a repeated resolution)
+                k += 1
+                label = ("dep", i, name, k)
+            await self.gate(label)
 
     async def dep_gate_close(self, name: str) -> None:
         if self.closed:
